@@ -39,6 +39,10 @@ add("UnaryMinusWithDotIsNull", ["C06"], "-x + 2.5 (unary minus in an expression 
     scen([{"al": "r", "e": bin_("+", {"t": "neg", "a": col("x")}, num(5, 2))}], None, [{"id": 1, "x": 2}]), ["emitsync_wrong_value", "sink_wrong_value"], WHY)
 add("NullPlusNumberIsString", ["C06"], "x + y + y with x an explicit NULL and y = 0.5 yields the string '0.50.5' (the + is taken for string concatenation) instead of NULL; with x missing the result is NULL as it should",
     scen([{"al": "r", "e": bin_("+", bin_("+", col("x"), col("y")), col("y"))}], None, [{"id": 1, "x": None, "y": {"$f": 0.5}}]), ["emitsync_wrong_value", "sink_wrong_value"], WHY)
+add("LikeInSelectIsNull", ["C13"], "s LIKE 'a%' as a select item evaluates to NULL instead of true/false (WHERE and CASE conditions evaluate it correctly)",
+    scen([{"al": "id", "e": col("id")}, {"al": "m", "e": {"t": "like", "a": col("s"), "pat": list("a%"), "neg": False}}], None, [{"id": 1, "s": "ab"}]), ["emitsync_wrong_value", "sink_wrong_value"], WHY)
+add("NestedIsNullParentAbsent", ["C13"], "WHERE o.f IS NULL rejects a row in which the parent object o is absent (or NULL) although o.f is then absent; a CASE condition o.f IS NULL on the same row is true",
+    scen(ID, {"t": "isnull", "a": {"t": "path", "p": ["o", "f"]}, "neg": False}, [{"id": 1}]), ["emitsync_no_result_for_accepted_row", "sink_result_missing"], WHY)
 add("NumericLiteralSelectItemIsNull", ["C05"], "SELECT 3 AS r yields r = NULL (a bare numeric literal select item is looked up as a column); string literals work",
     scen([{"al": "r", "e": num(3)}, {"al": "id", "e": col("id")}], None, [{"id": 1}]), ["emitsync_wrong_value", "sink_wrong_value"], WHY)
 kf = json.load(open(os.path.join(V, "KNOWN_FINDINGS.json")))
